@@ -178,22 +178,17 @@ type Flat struct {
 }
 
 func (f *Flat) writeAt(off int64, b []byte) {
+	if len(b) == 0 {
+		return // writing nothing changes nothing
+	}
 	if off > int64(len(f.data)) {
 		f.GapFill = true
 	}
-	if off+int64(len(b)) < int64(len(f.data)) && len(b) > 0 && off < int64(len(f.data)) {
+	if off+int64(len(b)) < int64(len(f.data)) {
 		f.TailKeep = true
 	}
-	for int64(len(f.data)) < off+int64(len(b)) && (int64(len(f.data)) < off || len(b) > 0) {
-		if int64(len(f.data)) >= off+int64(len(b)) {
-			break
-		}
+	for int64(len(f.data)) < off+int64(len(b)) {
 		f.data = append(f.data, 0)
-	}
-	if off > int64(len(f.data)) { // zero-length write beyond EOF still extends (as the code does)
-		for int64(len(f.data)) < off {
-			f.data = append(f.data, 0)
-		}
 	}
 	copy(f.data[off:], b)
 }
